@@ -35,7 +35,7 @@ Invariants:
   message-verifies / message-binds (not another key's address, not another
   message).
 - C18 conservation, fee-is-ceil-of-priced-size, change-not-dust,
-  change-dropped-only-if-dust, exact-funds-accepted,
+  change-dropped-only-if-dust, change-at-dust-created, exact-funds-accepted,
   insufficient-funds-refused, fee-floor-on-final-vsize,
   estimate-covers-actual, size-identities (every Tx that flows).
 - C12 control-block-proves-leaf (auditor's tree, Updater's field, finalized
@@ -43,16 +43,16 @@ Invariants:
   output-prvkey-matches, keypath-signature-verifies, altered-proof-rejected
   (control block / leaf script / leaf version / parity / output key, one
   bit), altered-spend-rejected (the same through the engine).
-- C09 precomputed-equals-direct, psbt-equals-direct, view-equals-direct
-  (fault-free) and view-agrees-or-refuses (file faults).
+- C09 precomputed-equals-direct, psbt-equals-direct (request and combined),
+  from-tx-equals-direct (the signed transaction), view-equals-direct (intact
+  file) and view-agrees-or-refuses (file faults).
 - C19 (tagged here for W4's check to use) receiver-raises-only-library-errors.
 """
 
 from __future__ import annotations
 
-import errno
 import hashlib
-from base64 import b64encode
+import io
 from copy import deepcopy
 from dataclasses import dataclass
 from typing import Any, Callable
@@ -109,11 +109,12 @@ class _Answered:
 # the simulated parties
 # ---------------------------------------------------------------------------
 class World:
-    def __init__(self, ctx: Ctx, cer: gw.Ceremony, faulty: bool) -> None:
+    def __init__(self, ctx: Ctx, cer: gw.Ceremony, faulty: bool, direct: Digests) -> None:
         ch = ctx.ch
         self.ctx = ctx
         self.cer = cer
         self.faulty = faulty
+        self.direct = direct  # C09: what the hosts' views are compared with
         self.sim = Sim(ctx, max_events=400)
         f = {"drop": 0, "dup": 0, "corrupt": 0, "jitter": 5}
         if faulty:
@@ -291,8 +292,7 @@ class Host:
         self.disk = SimDisk(self.ctx)
         self.up = True
         self.epoch = 0
-        self.views: list[tuple[int, bytes, bytes | None]] = []  # (input, leaf hash, digest or None = refused)
-        self.file_faults = False
+        self.inspected = False
 
     def on_message(self, src: str, msg: Msg) -> None:
         if not self.up:
@@ -309,7 +309,7 @@ class Host:
             return
         data = self.disk.read("inbox")
         pristine = data == self.w.coord.request_bytes
-        if self.ctx.wants(P09) and pristine and not self.views:
+        if self.ctx.wants(P09) and pristine and not self.inspected:
             self.inspect(data)
         signed = self.w.attempt(pristine, "honest-request-signed", self.name, lambda: self.signer.sign_psbt(Psbt.parse(data)))
         if signed is None:
@@ -324,35 +324,27 @@ class Host:
         """C09: the digests a memory-poor signer would compute, through a view over the stored file."""
         ctx, ch = self.ctx, self.ctx.ch
         kw: dict[str, Any] = {}
-        if self.w.faulty:
-            kind = ch.draw(4, "file.fault")
-            self.file_faults = kind != 0
-            if kind == 1:
-                kw["short_reads"] = True
-            elif kind == 2:
-                kw["eio_on_read"] = 1 + ch.draw(60, "file.eio-at")
-            elif kind == 3:
-                cut = ch.draw(len(data), "file.cut")
-                data = data[:cut]
-                ctx.fault("file-truncated", f"{cut}")
-        stream = SimFile(data, ctx, name=f"{self.name}/inbox", **kw)
+        kind = ch.draw(4, "file.fault") if self.w.faulty else 0
+        if kind == 1:
+            kw["short_reads"] = True
+        elif kind == 2:
+            kw["eio_on_read"] = 1 + ch.draw(60, "file.eio-at")
+        elif kind == 3:
+            data = data[: ch.draw(len(data), "file.cut")]
+            ctx.fault("file-truncated", len(data))
+        self.inspected = True
+        stream: Any = SimFile(data, ctx, name=f"{self.name}/inbox", **kw)
+        if kind and ch.draw(2, "file.buffered"):
+            # what `open(path, "rb")` hands out: a buffer over the raw file, which loops over short reads
+            stream = io.BufferedReader(stream, buffer_size=ch.pick([16, 64, 4096], "file.buffer"))
+            ctx.probe("view-over-buffered-file")
         try:
-            view = PsbtView(stream)  # type: ignore[arg-type]
+            view = PsbtView(stream)
         except (*LIB, OSError) as e:
-            self.views.append((-1, b"", None))
-            ctx.note("view-refused", type(e).__name__, actor=self.name)
+            ctx.check(P09, "view-equals-direct", kind != 0, f"{self.name}: the view over an intact file refused: {type(e).__name__}: {e}", site="cosigner")
+            ctx.probe("view-refused-under-file-fault")
             return
-        for i, spec in enumerate(self.w.cer.inputs):
-            for lh in _leaf_hashes(self.w.cer, spec):
-                try:
-                    if spec.wallet.kind == "taproot":
-                        d: bytes | None = view.taproot_sig_hash(i, leaf_hash=lh)
-                    else:
-                        d = view.ecdsa_sig_hash(i)
-                except (*LIB, OSError) as e:
-                    d = None
-                    ctx.note("view-refused", i, type(e).__name__, actor=self.name)
-                self.views.append((i, lh, d))
+        _view_digests(ctx, view, self.w.cer, self.w.direct, kind == 0, "cosigner")
 
     def crash(self) -> None:
         if not self.up:
@@ -401,6 +393,14 @@ def run(ctx: Ctx) -> None:
     ctx.log("start", f"bindings={serving}", f"faulty={faulty}", [w.shape for w in wallets], f"cosigners={len(cosigners)}")
     with ctx.must_succeed(P18, "funded-psbt-builds", "build_psbt"):
         cer = gw.fund_and_build(ch, wallets, cosigners)
+    if ctx.wants(P12):
+        # every taproot script the ceremony is about to spend, before it tries
+        seen: list[tuple[int, int]] = []
+        for spec in cer.inputs:
+            at = (wallets.index(spec.wallet), spec.index)
+            if spec.wallet.kind == "taproot" and at not in seen:
+                seen.append(at)
+                _taproot_wallet(ctx, cosigners, spec.wallet, spec.index, faulty)
     for spec, psbt_in in zip(cer.inputs, cer.psbt.inputs):
         ctx.probe(f"shape:{spec.wallet.shape}")
         ctx.probe(f"path:{spec.path.label.split(':')[0]}" if spec.wallet.shape != "tr-tree" else f"path:tr-{'key' if spec.path.leaf is None else spec.wallet.leaves()[spec.path.leaf].kind}")
@@ -410,8 +410,8 @@ def run(ctx: Ctx) -> None:
     ctx.log("funded", f"in={len(cer.inputs)}", f"out={len(cer.psbt.outputs)}", f"rate={cer.fee_rate.sats_per_kvbyte}", f"fee={cer.funded.fee}", f"v{cer.psbt.version}", cer.psbt.tx.id)
 
     _funding_invariants(ctx, cer)
-    world = World(ctx, cer, faulty)
-    signed = world.run()
+    direct = _digests_before(ctx, cer) if ctx.wants(P09) else {}
+    signed = World(ctx, cer, faulty, direct).run()
     with ctx.must_succeed(P10, "closure", "finalize"):
         final = finalize(signed, solver=cer.solver)
     with ctx.must_succeed(P10, "closure", "extract_tx"):
@@ -424,9 +424,9 @@ def run(ctx: Ctx) -> None:
         _tamper(ctx, cer, tx)
         _messages(ctx, cer)
     if ctx.wants(P12):
-        _taproot(ctx, cer, final, tx, faulty)
+        _taproot_spends(ctx, cer, tx, faulty)
     if ctx.wants(P09):
-        _digests(ctx, cer, world, signed, tx, faulty)
+        _digests_after(ctx, cer, signed, tx, direct, faulty)
 
 
 # ---------------------------------------------------------------------------
@@ -488,6 +488,21 @@ def _funding_invariants(ctx: Ctx, cer: gw.Ceremony) -> None:
         ctx.fault("funds-short")
     else:
         ctx.check(P18, "insufficient-funds-refused", False, f"inputs {total_in}, outputs {total_in - owed + short}, fee owed {owed}: built with fee {over.fee}")
+    if script is None:
+        return
+    # and the boundary of dust: a change worth exactly the threshold is created, one satoshi less is left to the fee
+    with_change = deepcopy(psbt)
+    if funded.change_index is None:
+        with_change.outputs.append(PsbtOut(amount=0, script_pub_key=script))
+    fee_c = ref_fees.ceil_fee(rate, with_change.vsize_estimate(cer.sizer))
+    dust = ref_fees.dust_threshold(script)
+    at_dust = total_in - fee_c - dust - sum(o.value for o in pay)
+    for delta, inv in ((0, "change-at-dust-created"), (1, "change-dropped-only-if-dust")):
+        with ctx.must_succeed(P18, inv, "build_psbt"):
+            built = build_psbt(ins, [*pay, TxOut(at_dust + delta, last.script_pub_key)], cer.fee_rate, script, **kw)
+        want = (fee_c, dust) if delta == 0 else (total_in - at_dust - 1 - sum(o.value for o in pay), 0)
+        ctx.check(P18, inv, (built.fee, built.change) == want, lambda: f"would-be change {dust - delta} (dust {dust}): fee {built.fee}, change {built.change}; expected {want}", site="boundary")
+    ctx.probe("dust-boundary-probed")
 
 
 def _signed_invariants(ctx: Ctx, cer: gw.Ceremony, tx: Tx) -> None:
@@ -676,47 +691,86 @@ def _proof_verdict(ctx: Ctx, q: bytes, script: bytes, control: bytes, what: str)
     ctx.check(P12, "altered-proof-rejected", answer is False or (isinstance(answer, str) and not answer.startswith("non-library")), lambda: f"{what}: check_output_pubkey answered {answer}", site=what.split(" ")[0])
 
 
-def _taproot(ctx: Ctx, cer: gw.Ceremony, final: Psbt, tx: Tx, faulty: bool) -> None:
+def _taproot_wallet(ctx: Ctx, cos: list[gw.Cosigner], w: gw.WalletSpec, index: int, faulty: bool) -> None:
+    """What a taproot wallet commits to, before anything is spent: needs no ceremony to have worked."""
     ch = ctx.ch
-    cos = cer.cosigners
+    with ctx.must_succeed(P12, "output-key-is-wallets", "descriptor"):
+        q = w.descriptor.script_pub_key(index).script[2:]
+    x_only = gw.internal_key(w, cos, index)
+    tree = gw.script_tree(w, cos, index) if w.tree is not None else None
+    # the internal key in a drawn accepted spelling
+    if w.internal is None:
+        internal: Any = ch.pick([None, b"\x02" + x_only, (b"\x02" + x_only).hex()], "tr.nums-spelling") if tree is not None else b"\x02" + x_only
+    else:
+        sec = cos[w.internal[0]].pub_key(w.internal[1], 0, index)
+        point = ref_taproot.lift_x(int.from_bytes(x_only, "big"))
+        assert point is not None
+        y = point[1] if (sec[0] == 2) == (point[1] % 2 == 0) else ref_taproot.P - point[1]
+        # (32 bare bytes are a *private* key to `Key`, so the x-only form is not among them)
+        internal = ch.pick([sec, sec.hex(), b"\x04" + x_only + y.to_bytes(32, "big")], "tr.spelling")
+        ctx.probe(f"internal-key-parity:{sec[0] & 1}")
+    with ctx.must_succeed(P12, "output-key-is-wallets", "output_pubkey"):
+        out_key, parity = taproot.output_pubkey(internal, tree)
+    ctx.check(P12, "output-key-is-wallets", out_key == q, lambda: f"output_pubkey {out_key.hex()} != the key the descriptor pays to {q.hex()}")
+    ctx.probe(f"output-key-parity:{parity}")
+    leaves = w.leaves()
+    if ch.draw(4, "tr.reference?") == 0:
+        ref_key = ref_taproot.output_key(x_only, _ref_tree(tree) if tree is not None else None)
+        ctx.probe("reference-output-key")
+        ctx.check(P12, "output-key-equals-reference", (out_key, parity) == ref_key, lambda: f"output key {out_key.hex()}/{parity}, BIP341 transcription {ref_key[0].hex()}/{ref_key[1]} ({len(leaves)} leaves)")
+    # (i) every leaf's control block proves it against the key the wallet hands out
+    proofs: list[tuple[bytes, bytes]] = []
+    for n in range(len(leaves)):
+        with ctx.must_succeed(P12, "control-block-proves-leaf", "input_script_sig"):
+            script_cmds, control = taproot.input_script_sig(internal, tree, n)
+            script = taproot.serialize(script_cmds)
+            ok = taproot.check_output_pubkey(q, script, control)
+        ctx.check(P12, "control-block-proves-leaf", ok is True, lambda: f"leaf {n} of {len(leaves)}: input_script_sig's control block {control.hex()} does not prove {script.hex()} against {q.hex()}", site="input_script_sig")
+        ctx.probe(f"leaf-depth:{min((len(control) - 33) // 32, 6)}")
+        proofs.append((script, control))
+    # the private half, where a cosigner holds the internal key
+    if w.internal is not None:
+        holder = cos[w.internal[0]]
+        prv = bip32.derive(holder.xprv, holder.leaf_path(w.internal[1], 0, index))
+        msg = ch.nbytes(32, "tr.msg")
+        with ctx.must_succeed(P12, "output-prvkey-matches", "output_prvkey"):
+            d = taproot.output_prvkey(prv, tree)
+            pub = ssa.gen_keys(d)[1]
+        ctx.check(P12, "output-prvkey-matches", pub.to_bytes(32, "big") == q, lambda: f"output_prvkey's public key {pub:064x} != output key {q.hex()}")
+        with ctx.must_succeed(P12, "keypath-signature-verifies", "ssa"):
+            ok = ssa.verify_(msg, q, ssa.sign_(msg, d))
+        ctx.check(P12, "keypath-signature-verifies", ok is True, "a signature by output_prvkey does not verify under the output key")
+    if not faulty or not proofs:
+        return
+    # (ii) one bit altered in transit: never accepted
+    script, control = proofs[ch.draw(len(proofs), "flip.leaf")]
+    _proof_verdict(ctx, q, script, _flip(control, 0), "parity bit")
+    _proof_verdict(ctx, q, script, _flip(control, 1 + ch.draw(7, "flip.version-bit")), "leaf-version bit")
+    ctx.fault("bitflip-parity")
+    ctx.fault("bitflip-leaf-version")
+    for _ in range(6):
+        target = ch.pick(["control-block", "leaf-script", "output-key", "internal-key", "merkle-path"], "flip.target")
+        if target == "leaf-script":
+            bit = ch.draw(8 * len(script), "flip.bit")
+            _proof_verdict(ctx, q, _flip(script, bit), control, f"{target} bit {bit}")
+        elif target == "output-key":
+            bit = ch.draw(256, "flip.bit")
+            _proof_verdict(ctx, _flip(q, bit), script, control, f"{target} bit {bit}")
+        else:
+            lo, hi = {"control-block": (0, len(control)), "internal-key": (1, 33), "merkle-path": (33, len(control))}[target]
+            if lo == hi:
+                continue
+            bit = 8 * lo + ch.draw(8 * (hi - lo), "flip.bit")
+            _proof_verdict(ctx, q, script, _flip(control, bit), f"{target} bit {bit}")
+        ctx.fault(f"bitflip-{target}")
+
+
+def _taproot_spends(ctx: Ctx, cer: gw.Ceremony, tx: Tx, faulty: bool) -> None:
+    """The control blocks that travelled: the Updater's in the psbt, the Finalizer's in the witness."""
     for i, spec in enumerate(cer.inputs):
-        w = spec.wallet
-        if w.kind != "taproot":
+        if spec.wallet.kind != "taproot":
             continue
         q = spec.script_pub_key[2:]
-        x_only = gw.internal_key(w, cos, spec.index)
-        tree = gw.script_tree(w, cos, spec.index) if w.tree is not None else None
-        # the internal key in a drawn accepted spelling
-        if w.internal is None:
-            internal: Any = ch.pick([None, b"\x02" + x_only, (b"\x02" + x_only).hex()], "tr.nums-spelling") if tree is not None else b"\x02" + x_only
-        else:
-            sec = cos[w.internal[0]].pub_key(w.internal[1], 0, spec.index)
-            point = ref_taproot.lift_x(int.from_bytes(x_only, "big"))
-            assert point is not None
-            y = point[1] if (sec[0] == 2) == (point[1] % 2 == 0) else ref_taproot.P - point[1]
-            # (32 bare bytes are a *private* key to `Key`, so the x-only form is not among them)
-            internal = ch.pick([sec, sec.hex(), b"\x04" + x_only + y.to_bytes(32, "big")], "tr.spelling")
-            ctx.probe(f"internal-key-parity:{sec[0] & 1}")
-        with ctx.must_succeed(P12, "output-key-is-wallets", "output_pubkey"):
-            out_key, parity = taproot.output_pubkey(internal, tree)
-        ctx.check(P12, "output-key-is-wallets", out_key == q, lambda: f"output_pubkey {out_key.hex()} != the key the descriptor paid to {q.hex()}")
-        ctx.probe(f"output-key-parity:{parity}")
-        leaves = w.leaves()
-        ref_tree = _ref_tree(tree) if tree is not None else None
-        if ch.draw(4, "tr.reference?") == 0:
-            ref_key = ref_taproot.output_key(x_only, ref_tree)
-            ctx.probe("reference-output-key")
-            ctx.check(P12, "output-key-equals-reference", (out_key, parity) == ref_key, lambda: f"output key {out_key.hex()}/{parity}, BIP341 transcription {ref_key[0].hex()}/{ref_key[1]} ({len(leaves)} leaves)")
-        # (i) every leaf's control block, from the library's three producers
-        proofs: list[tuple[bytes, bytes]] = []
-        for n in range(len(leaves)):
-            with ctx.must_succeed(P12, "control-block-proves-leaf", "input_script_sig"):
-                script_cmds, control = taproot.input_script_sig(internal, tree, n)
-                script = taproot.serialize(script_cmds)
-                ok = taproot.check_output_pubkey(q, script, control)
-            ctx.check(P12, "control-block-proves-leaf", ok is True, lambda: f"leaf {n} of {len(leaves)}: input_script_sig's control block {control.hex()} does not prove {script.hex()} against {q.hex()}", site="input_script_sig")
-            ctx.probe(f"leaf-depth:{min((len(control) - 33) // 32, 6)}")
-            proofs.append((script, control))
         for control, (script, version) in cer.psbt.inputs[i].taproot_leaf_scripts.items():
             with ctx.must_succeed(P12, "control-block-proves-leaf", "updater"):
                 ok = taproot.check_output_pubkey(q, script, control)
@@ -729,43 +783,8 @@ def _taproot(ctx: Ctx, cer: gw.Ceremony, final: Psbt, tx: Tx, faulty: bool) -> N
             ctx.check(P12, "control-block-proves-leaf", ok is True, lambda: f"the finalized witness's control block {stack[-1].hex()} does not prove {stack[-2].hex()}", site="finalizer")
         else:
             ctx.probe("key-path-spent")
-        # the private half, where a cosigner holds the internal key
-        if w.internal is not None:
-            holder = cos[w.internal[0]]
-            prv = bip32.derive(holder.xprv, holder.leaf_path(w.internal[1], 0, spec.index))
-            msg = ch.nbytes(32, "tr.msg")
-            with ctx.must_succeed(P12, "output-prvkey-matches", "output_prvkey"):
-                d = taproot.output_prvkey(prv, tree)
-                pub = ssa.gen_keys(d)[1]
-            ctx.check(P12, "output-prvkey-matches", pub.to_bytes(32, "big") == q, lambda: f"output_prvkey's public key {pub:064x} != output key {q.hex()}")
-            with ctx.must_succeed(P12, "keypath-signature-verifies", "ssa"):
-                sig = ssa.sign_(msg, d)
-                ok = ssa.verify_(msg, q, sig)
-            ctx.check(P12, "keypath-signature-verifies", ok is True, "a signature by output_prvkey does not verify under the output key")
-        if not faulty:
-            continue
-        # (ii) one bit altered in transit: never accepted
-        for script, control in ([proofs[ch.draw(len(proofs), "flip.leaf")]] if proofs else []):
-            _proof_verdict(ctx, q, script, _flip(control, 0), "parity bit")
-            _proof_verdict(ctx, q, script, _flip(control, 1 + ch.draw(7, "flip.version-bit")), "leaf-version bit")
-            ctx.fault("bitflip-parity")
-            ctx.fault("bitflip-leaf-version")
-            for _ in range(6):
-                target = ch.pick(["control-block", "leaf-script", "output-key", "internal-key", "merkle-path"], "flip.target")
-                if target == "leaf-script":
-                    bit = ch.draw(8 * len(script), "flip.bit")
-                    _proof_verdict(ctx, q, _flip(script, bit), control, f"{target} bit {bit}")
-                elif target == "output-key":
-                    bit = ch.draw(256, "flip.bit")
-                    _proof_verdict(ctx, _flip(q, bit), script, control, f"{target} bit {bit}")
-                else:
-                    lo, hi = {"control-block": (0, len(control)), "internal-key": (1, 33), "merkle-path": (33, len(control))}[target]
-                    if lo == hi:
-                        continue
-                    bit = 8 * lo + ch.draw(8 * (hi - lo), "flip.bit")
-                    _proof_verdict(ctx, q, script, _flip(control, bit), f"{target} bit {bit}")
-                ctx.fault(f"bitflip-{target}")
-        _altered_spend(ctx, cer, tx, i)
+        if faulty:
+            _altered_spend(ctx, cer, tx, i)
 
 
 def _ref_tree(tree: Any) -> Any:
@@ -778,90 +797,122 @@ def _ref_tree(tree: Any) -> Any:
 def _altered_spend(ctx: Ctx, cer: gw.Ceremony, tx: Tx, i: int) -> None:
     """The same alterations where they matter: the engine, on the spend itself."""
     ch = ctx.ch
-    stack = list(tx.vin[i].script_witness.stack)
-    bad, prevouts = deepcopy(tx), list(cer.prevouts)
-    targets = ["output-key"] + (["control-block", "leaf-script"] if len(stack) > 1 else ["signature"])
-    target = ch.pick(targets, "spend.flip")
-    if target == "output-key":
-        spk = prevouts[i].script_pub_key.script
-        prevouts[i] = TxOut(prevouts[i].value, _flip(spk, 16 + ch.draw(256, "spend.bit")))
-    else:
-        n = {"control-block": -1, "leaf-script": -2, "signature": 0}[target]
-        stack[n] = _flip(stack[n], ch.draw(8 * len(stack[n]), "spend.bit"))
-        bad.vin[i].script_witness = Witness(stack)
-    ctx.fault(f"spend-bitflip-{target}")
-    try:
-        verify_input(prevouts, bad, i, gw.STANDARD_FLAGS)
-        verdict = "accepted"
-    except LIB as e:
-        verdict = f"rejected {type(e).__name__}"
-    except Exception as e:  # noqa: BLE001
-        verdict = f"non-library {type(e).__name__}: {e}"
-    ctx.check(P12, "altered-spend-rejected", verdict.startswith("rejected"), lambda: f"{target} altered in one bit: the engine {verdict}", site=target)
+    script_path = len(tx.vin[i].script_witness.stack) > 1
+    for target in ["output-key"] + (["control-block", "leaf-script"] if script_path else ["signature"]):
+        stack = list(tx.vin[i].script_witness.stack)
+        bad, prevouts = deepcopy(tx), list(cer.prevouts)
+        if target == "output-key":
+            spk = prevouts[i].script_pub_key.script
+            prevouts[i] = TxOut(prevouts[i].value, _flip(spk, 16 + ch.draw(256, "spend.bit")))
+        else:
+            n = {"control-block": -1, "leaf-script": -2, "signature": 0}[target]
+            stack[n] = _flip(stack[n], ch.draw(8 * len(stack[n]), "spend.bit"))
+            bad.vin[i].script_witness = Witness(stack)
+        ctx.fault(f"spend-bitflip-{target}")
+        try:
+            verify_input(prevouts, bad, i, gw.STANDARD_FLAGS)
+            verdict = "accepted"
+        except LIB as e:
+            verdict = f"rejected {type(e).__name__}"
+        except Exception as e:  # noqa: BLE001
+            verdict = f"non-library {type(e).__name__}: {e}"
+        ctx.check(P12, "altered-spend-rejected", verdict.startswith("rejected"), lambda: f"{target} altered in one bit: the engine {verdict}", site=target)
 
 
 # ---------------------------------------------------------------------------
 # C09
 # ---------------------------------------------------------------------------
-def _digests(ctx: Ctx, cer: gw.Ceremony, world: World, signed: Psbt, tx: Tx, faulty: bool) -> None:
+Digests = dict[tuple[int, bytes, int | None], bytes]  # (input, tapleaf hash or b"", explicit hash type or None) -> digest
+
+
+def _script_code(spec: gw.InputSpec, psbt_in: Any) -> bytes:
+    """What an ECDSA signature of this input signs against: the auditor's reading of the wallet shape."""
+    shape = spec.wallet.shape
+    if shape in ("pkh", "multi"):
+        return spec.script_pub_key
+    if shape in ("wpkh", "sh-wpkh"):
+        program = spec.script_pub_key if shape == "wpkh" else psbt_in.redeem_script
+        return b"\x76\xa9\x14" + program[2:] + b"\x88\xac"
+    return psbt_in.redeem_script if shape == "sh-multi" else psbt_in.witness_script
+
+
+def _digests_before(ctx: Ctx, cer: gw.Ceremony) -> Digests:
+    """Direct digests of the transaction being built, and the same through PrecomputedTxData and the Psbt."""
     ch = ctx.ch
-    request = cer.psbt
-    precomputed = sig_hash.PrecomputedTxData(tx, cer.prevouts)
-    # a second reader of the finished work: a view over the combined psbt, as stored
-    stored = SimFile(signed.serialize(), ctx, name="coord/combined", short_reads=faulty and bool(ch.draw(2, "file.short?")))
-    try:
-        combined_view: PsbtView | None = PsbtView(stored)  # type: ignore[arg-type]
-    except (*LIB, OSError):
-        combined_view = None
-    direct: dict[tuple[int, bytes], bytes] = {}
+    request, tx = cer.psbt, cer.psbt.tx
+    direct: Digests = {}
+    with ctx.must_succeed(P09, "direct-digest-computes", "precompute"):
+        precomputed = sig_hash.PrecomputedTxData(tx, cer.prevouts)
     for i, (spec, psbt_in) in enumerate(zip(cer.inputs, request.inputs)):
         is_tr = spec.wallet.kind == "taproot"
+        legal = [t for t in gw.SIGHASH_TYPES[1:] if not (is_tr and t & 3 == sig_hash.SINGLE and i >= len(tx.vout))]
         own = psbt_in.sig_hash_type if psbt_in.sig_hash_type is not None else (sig_hash.DEFAULT if is_tr else sig_hash.ALL)
-        n_out = len(tx.vout)
-        legal = [t for t in gw.SIGHASH_TYPES[1:] if not (is_tr and t & 3 == sig_hash.SINGLE and i >= n_out)]
-        spent_leaf = b""
-        if len(tx.vin[i].script_witness.stack) > 1 and is_tr:
-            spent_leaf = taproot.leaf_hash(gw.TAPSCRIPT, tx.vin[i].script_witness.stack[-2])
+        site = spec.wallet.kind
         for lh in _leaf_hashes(cer, spec):
-            for ht, explicit in ((own, False), (legal[ch.draw(len(legal), "digest.type")], True)):
-                site = f"{spec.wallet.kind}"
+            for ht, explicit in ((own, None), (legal[ch.draw(len(legal), "digest.type")],) * 2):
                 with ctx.must_succeed(P09, "direct-digest-computes", site):
-                    if is_tr and lh != spent_leaf:
-                        # a path the finished witness does not take: BIP341's message, stated rather than read off the witness
+                    if is_tr:
                         ext = lh + b"\x00\xff\xff\xff\xff" if lh else b""
                         d0 = sig_hash.taproot(tx, i, cer.prevouts, ht, int(bool(lh)), b"", ext)
                         d1 = sig_hash.taproot(tx, i, cer.prevouts, ht, int(bool(lh)), b"", ext, precomputed)
+                    elif spec.wallet.kind == "segwit0":
+                        code = _script_code(spec, psbt_in)
+                        d0 = sig_hash.segwit_v0(code, tx, i, ht, spec.value)
+                        d1 = sig_hash.segwit_v0(code, tx, i, ht, spec.value, precomputed)
                     else:
-                        d0 = sig_hash.from_tx(cer.prevouts, tx, i, ht)
-                        d1 = sig_hash.from_tx(cer.prevouts, tx, i, ht, precomputed)
-                if not explicit:
-                    direct[(i, lh)] = d0
+                        d0 = d1 = sig_hash.legacy(_script_code(spec, psbt_in), tx, i, ht)
+                direct[(i, lh, explicit)] = d0
                 ctx.note("digest", i, lh[:4], ht, d0)
-                kw = {"hash_type": ht} if explicit else {}
+                kw = {} if explicit is None else {"hash_type": ht}
                 with ctx.must_succeed(P09, "psbt-digest-computes", site):
                     d2 = taproot_sig_hash(request, i, leaf_hash=lh, **kw) if is_tr else ecdsa_sig_hash(request, i, **kw)
-                    d3 = taproot_sig_hash(signed, i, leaf_hash=lh, **kw) if is_tr else ecdsa_sig_hash(signed, i, **kw)
                 ctx.check(P09, "precomputed-equals-direct", d1 == d0, lambda: f"input {i} type {ht}: with PrecomputedTxData {d1.hex()} != direct {d0.hex()}", site=site)
-                ctx.check(P09, "psbt-equals-direct", d2 == d0 and d3 == d0, lambda: f"input {i} type {ht} leaf {lh.hex()[:8]}: psbt {d2.hex()} / signed psbt {d3.hex()} != direct {d0.hex()}", site=site)
-                if combined_view is not None:
-                    try:
-                        d4 = combined_view.taproot_sig_hash(i, leaf_hash=lh, **kw) if is_tr else combined_view.ecdsa_sig_hash(i, **kw)
-                    except (*LIB, OSError) as e:
-                        ctx.check(P09, "view-equals-direct", faulty, f"input {i}: the view over an intact file refused: {type(e).__name__}: {e}", site=site)
-                        ctx.probe("view-refused-under-file-fault")
-                    else:
-                        ctx.check(P09, "view-agrees-or-refuses" if faulty else "view-equals-direct", d4 == d0, lambda: f"input {i} type {ht}: view over the combined psbt {d4.hex()} != direct {d0.hex()}", site=site)
-                        ctx.probe("view-digest-agreed")
-    # what the cosigners' views said before anything was signed
-    for name, host in sorted(world.hosts.items()):
-        for i, lh, d in host.views:
-            if d is None:
-                ctx.check(P09, "view-equals-direct", host.file_faults, f"{name}: the view over an intact file refused (input {i})", site="cosigner")
-                ctx.probe("view-refused-under-file-fault")
-                continue
-            want = direct[(i, lh)]
-            ctx.check(P09, "view-agrees-or-refuses" if host.file_faults else "view-equals-direct", d == want, lambda: f"{name} input {i} leaf {lh.hex()[:8]}: view {d.hex()} != direct {want.hex()}", site="cosigner")
-            ctx.probe("view-digest-agreed")
+                ctx.check(P09, "psbt-equals-direct", d2 == d0, lambda: f"input {i} type {ht} leaf {lh.hex()[:8]}: psbt {d2.hex()} != direct {d0.hex()}", site=site)
+    return direct
+
+
+def _view_digests(ctx: Ctx, view: PsbtView, cer: gw.Ceremony, direct: Digests, strict: bool, who: str) -> None:
+    """Every digest through a streamed view: equal to the direct one; under a file fault it may refuse instead."""
+    for (i, lh, explicit), want in sorted(direct.items(), key=lambda kv: (kv[0][0], kv[0][1], kv[0][2] or 0)):
+        kw = {} if explicit is None else {"hash_type": explicit}
+        try:
+            got = view.taproot_sig_hash(i, leaf_hash=lh, **kw) if cer.inputs[i].wallet.kind == "taproot" else view.ecdsa_sig_hash(i, **kw)
+        except (*LIB, OSError) as e:
+            ctx.check(P09, "view-equals-direct", not strict, f"{who} input {i}: the view over an intact file refused: {type(e).__name__}: {e}", site=who)
+            ctx.probe("view-refused-under-file-fault")
+            continue
+        ctx.check(P09, "view-equals-direct" if strict else "view-agrees-or-refuses", got == want, lambda: f"{who} input {i} leaf {lh.hex()[:8]} type {explicit}: view {got.hex()} != direct {want.hex()}", site=who)
+        ctx.probe("view-digest-agreed")
+
+
+def _digests_after(ctx: Ctx, cer: gw.Ceremony, signed: Psbt, tx: Tx, direct: Digests, faulty: bool) -> None:
+    """The same digests read off the finished work: the signed transaction, the combined psbt, a view over it."""
+    precomputed = sig_hash.PrecomputedTxData(tx, cer.prevouts)
+    for (i, lh, explicit), want in sorted(direct.items(), key=lambda kv: (kv[0][0], kv[0][1], kv[0][2] or 0)):
+        spec, psbt_in = cer.inputs[i], cer.psbt.inputs[i]
+        is_tr = spec.wallet.kind == "taproot"
+        ht = explicit if explicit is not None else (psbt_in.sig_hash_type if psbt_in.sig_hash_type is not None else (sig_hash.DEFAULT if is_tr else sig_hash.ALL))
+        stack = tx.vin[i].script_witness.stack
+        spent_leaf = taproot.leaf_hash(gw.TAPSCRIPT, stack[-2]) if is_tr and len(stack) > 1 else b""
+        kw = {} if explicit is None else {"hash_type": explicit}
+        with ctx.must_succeed(P09, "psbt-digest-computes", "signed"):
+            d3 = taproot_sig_hash(signed, i, leaf_hash=lh, **kw) if is_tr else ecdsa_sig_hash(signed, i, **kw)
+        ctx.check(P09, "psbt-equals-direct", d3 == want, lambda: f"input {i} type {ht}: combined psbt {d3.hex()} != direct {want.hex()}", site="signed")
+        if is_tr and lh != spent_leaf:
+            continue  # from_tx reads the path off the witness, and this is not the path it took
+        with ctx.must_succeed(P09, "direct-digest-computes", "from_tx"):
+            d4 = sig_hash.from_tx(cer.prevouts, tx, i, ht)
+            d5 = sig_hash.from_tx(cer.prevouts, tx, i, ht, precomputed)
+        ctx.check(P09, "from-tx-equals-direct", d4 == want, lambda: f"input {i} ({spec.wallet.shape}) type {ht}: from_tx on the signed transaction {d4.hex()} != direct {want.hex()}", site=spec.wallet.kind)
+        ctx.check(P09, "precomputed-equals-direct", d5 == want, lambda: f"input {i} type {ht}: from_tx with PrecomputedTxData {d5.hex()} != direct {want.hex()}", site="from_tx")
+    # a second reader of the finished work: a view over the combined psbt, as stored
+    short = faulty and bool(ctx.ch.draw(2, "file.short?"))
+    try:
+        view = PsbtView(SimFile(signed.serialize(), ctx, name="coord/combined", short_reads=short))  # type: ignore[arg-type]
+    except (*LIB, OSError) as e:
+        ctx.check(P09, "view-equals-direct", short, f"the view over the intact combined file refused: {type(e).__name__}: {e}", site="coord")
+        return
+    _view_digests(ctx, view, cer, direct, not short, "coord")
 
 
 # ---------------------------------------------------------------------------
